@@ -394,7 +394,12 @@ const VARIANTS: [&str; 14] = [
 fn evil_case(check: &Check, rng: &mut Rng, variant: &str, honest_is_responder: bool, allow_rsa: bool) {
     let (hk_kind, honest_key) = gen_any_key(rng, false);
     let (mk_kind, my_key) = gen_any_key(rng, allow_rsa);
-    let (vk_kind, victim_key) = gen_any_key(rng, allow_rsa);
+    let (mut vk_kind, mut victim_key) = gen_any_key(rng, allow_rsa);
+    if victim_key.public() == my_key.public() {
+        // only three RSA test keys exist: the victim must be somebody else
+        vk_kind = rng.usize(3);
+        victim_key = gen_key(vk_kind, rng);
+    }
     let my_id = PeerId::from_public_key(&my_key.public());
     let victim_id = PeerId::from_public_key(&victim_key.public());
     let (Ok(honest), Ok(victim)) = (noise::Config::new(&honest_key), noise::Config::new(&victim_key)) else {
